@@ -31,6 +31,8 @@ func runC03(c *Ctx) {
 	c.Rule("C03.O9", "E4", "deleteConn reports the close on every path (one close notification per connection means at least one): the only exits without onClose are the nil guard and the UDP-listener type", 1)
 	c.Rule("C03.O7", "E4", "onConnected(c, nil) is dominated by evidence that the connect succeeded; teardown reports a still-pending dial callback", 2)
 	c03AlwaysNotifies(c, "C03.O9")
+	c.Rule("C03.O10", "E4", "the dial timer is armed only for a connect that is still pending: a dial that is reported as a success is never closed by its own dial timer", 1)
+	c16DialTimerPending(c, "C03.O10")
 	c03DialClassify(c)
 
 	core := c.Core()
